@@ -64,6 +64,9 @@ const (
 
 // scripted RADIUS server: stateless, decides on the server address and the password.
 func scriptedExchange(ctx context.Context, p *radius.Packet, addr string) (*radius.Packet, error) {
+	if r, handled, err := scriptedAuthExchange(ctx, p, addr); handled {
+		return r, err
+	}
 	switch {
 	case strings.HasPrefix(addr, hostPassword):
 		if pw, err := rfc2865.UserPassword_LookupString(p); err == nil && pw == "good" {
@@ -575,12 +578,13 @@ func TestCheck(t *testing.T) {
 	run.Assumptions = []string{
 		"pppoe.Server has no CHAP handler and no local user table: without RADIUS every PAP request is accepted (that is its back end); CHAP frames are outside the alphabet",
 		"frames are well formed (malformed lengths are property C09)",
+		"part pppoe.Authenticator: the stand-alone PAP/CHAP authenticator (pkg/pppoe/auth.go) against scripted RADIUS back ends (accept by user/password, silent, Access-Challenge, unreachable); without RADIUS its documented back end accepts every request; RADIUS decides CHAP on the user name only (the CHAP-Password TODO in the code)",
 		"stations are interchangeable except through the sessions they own: the first session is A's; a station owning no live session is represented by F",
 		"'id-wrap' (at most once) presets the session-id counter to 65535 with the live sessions kept: the state after 65533 further sessions have come and gone",
 		"at most three sessions per execution (a station may hold several) and at most one 'wait' (one minute of virtual time without frames)",
 	}
 	vradius.SetExchange(scriptedExchange)
-	ms := models(run, t)
+	ms := append(models(run, t), authModels(run, t)...)
 	if *report.FlagReplay != "" {
 		os.Exit(replay(run, ms))
 	}
